@@ -783,6 +783,16 @@ def run(chk, replay=None):
                             got[nm] = [v_[0] for v_ in vals]
                     except Exception as e:   # noqa
                         chk.count('lcapy-error', 'twoport-%s:%s' % (nm, type(e).__name__))
+                # the n-port routines (open-circuit drive with one current source per port; short-circuit drive with one
+                # voltage source per port): the model's two extraction experiments
+                for nm, fn in (('Zn', 'Zparamsn'), ('Yn', 'Yparamsn')):
+                    try:
+                        M = getattr(cct, fn)(p1, m1, p2, m2)
+                        vals = [at(M[i, j_], sp, {}) for i in (0, 1) for j_ in (0, 1)]
+                        if all(v_ is not None and v_[1] == 0 for v_ in vals):
+                            got[nm] = [v_[0] for v_ in vals]
+                    except Exception as e:   # noqa
+                        chk.count('lcapy-error', 'twoport-%s:%s' % (nm, type(e).__name__))
                 # drive the real killed netlist with arbitrary port currents
                 i1 = Fraction(rng.randint(1, 7), rng.randint(1, 3)) * rng.choice([1, -1])
                 i2 = Fraction(rng.randint(1, 7), rng.randint(1, 3)) * rng.choice([1, -1])
@@ -818,12 +828,19 @@ def run(chk, replay=None):
             if [Fraction(x_) for x_ in ry.split()[1:]] != got['Y']:
                 chk.coverage['correspondence']['disagreements'] += 1
                 disagreements.append({'netlist': lines, 'ports': [p1, m1, p2, m2], 's': fstr(sp), 'lcapy Y': m2s(got['Y']), 'model short-circuit Y': ry})
+        for nm, rr in (('Zn', rz), ('Yn', ry)):
+            if nm in got and rr.startswith('ok') and 'undef' not in rr and ',' not in rr:
+                chk.coverage['correspondence']['compared'] += 1
+                chk.count('model', nm + 'params-compared')
+                if [Fraction(x_) for x_ in rr.split()[1:]] != got[nm]:
+                    chk.coverage['correspondence']['disagreements'] += 1
+                    disagreements.append({'netlist': lines, 'ports': [p1, m1, p2, m2], 's': fstr(sp), 'lcapy ' + nm: m2s(got[nm]), 'model': rr})
         # oracle: the C08 port relation of each reported matrix on the driven real circuit
         if V1 is None or V2 is None or V1[1] != 0 or V2[1] != 0:
             chk.count('lcapy', 'twoport-drive-not-rational')
             continue
         for nm in sorted(got):
-            verdict = drv.ask1('tp.rel %s %s 0 %s %s %s %s' % (nm, m2s(got[nm]), fstr(V1[0]), fstr(i1), fstr(V2[0]), fstr(i2)))
+            verdict = drv.ask1('tp.rel %s %s 0 %s %s %s %s' % (nm[0], m2s(got[nm]), fstr(V1[0]), fstr(i1), fstr(V2[0]), fstr(i2)))
             chk.count('oracle', 'twoport-relation:' + nm)
             if verdict != 'true':
                 n_cex += 1
